@@ -351,14 +351,14 @@ def run(tier, seed):
                 acc[key] = [0, wit, msg]
             acc[key][0] += cnt
     plist = params_list(tier)
-    st = explore.explore_all("checks.c09", "scenario", plist, 0, time_budget=(200 if tier == "quick" else 1800))
+    st = explore.explore_all("checks.c09", "scenario", plist, 0, time_budget=(1000 if tier == "quick" else 3600))
     sig_counts = getattr(st, "sig_counts", {})
     for v in st.violations:
         key = (v["oracle"], v["sig"])
         if key not in acc:
             acc[key] = [sig_counts.get(key, 1), {"part": "packing", "params": v["params"], "choices": v["choices"]}, v["message"] + " | params=%r" % (v["params"],)]
     splist = stall_params(tier)
-    st2 = explore.explore_all("checks.c09", "stall_scenario", splist, 0, time_budget=(120 if tier == "quick" else 900))
+    st2 = explore.explore_all("checks.c09", "stall_scenario", splist, 0, time_budget=(900 if tier == "quick" else 1800))
     for v in st2.violations:
         key = (v["oracle"], v["sig"])
         if key not in acc:
